@@ -19,7 +19,7 @@ func init() {
 		Decided: "a census of the ways the code can panic, each discharged structurally: every switch over opcode/TermType/Operator with a panicking (or silently dropping) default covers the constants that can reach it, Operator.getFunc covers exactly the operators the compiler routes to it (R-C08-enum, R-C01-dispatch); every panic call reachable from the API is classified (exhaustive-switch default, documented caller precondition, control-flow panic paired with recover, internal invariant discharged by another rule) (R-C08-panics); " +
 			"every unchecked type assertion outside parser.go is discharged (operand written by the compiler with that type, same-function evidence, or a reviewed row with a machine-checked supporting fact) (R-C08-assert); the grammar's semantic values are typed consistently: each nonterminal has one Go type and every $k.(T) asserts it (R-C08-yacctypes); " +
 			"optional-method dispatch chains over the module loader end in an error return (R-C08-dispatch); the VM's argument array is larger than any admitted arity (R-C08-argcap); lazy instruction slots are always filled (R-C01-closers); advancing an iterator after false or after an error executes no handler on a short stack (R-C07-exhaust-terminal, R-C07-errexit); os.Exit is called only in cmd/gojq and cli maps every error to a status (R-C15-status).",
-		NotCovered: "slice-index, nil-map and integer-conversion panics in general (value reasoning; go build -d=ssa/check_bce lists the unproven bounds checks); stack overflow on cyclic or very deep values; ParseError.Offset range; memory exhaustion.",
+		NotCovered: "slice-index panics on slices other than strings cut at constant positions, nil-map and integer-conversion panics in general (value reasoning; go build -d=ssa/check_bce lists the unproven bounds checks); stack overflow on cyclic or very deep values (module import cycles excepted: R-C08-importbound); ParseError.Offset range beyond \"every lexer step is licensed\" (R-C08-lexadvance; scanString's index arithmetic is not modelled); memory exhaustion.",
 	})
 	reg(&Rule{ID: "R-C08-enum", Props: []string{"C08", "C09"}, Floor: 6,
 		Doc: "switches over TermType/Operator whose default panics (or that drop unlisted values) are exhaustive; Operator.getFunc covers exactly the operators routed to it",
